@@ -125,6 +125,74 @@ def crafted_instances():
     return out
 
 
+def exact_instances():
+    """The exact (dyadic) instance family of MC_Solver, executed on the real code: timer windows that start and end exactly on
+    grid instants, two rules overlapping at exactly one instant, scripted proposals, stop thresholds, loads far above stall,
+    the self-locking and the free worm stage; schedules run / continue / reset / rerun.  Recorded with exact = TRUE, so
+    Trace_Solver judges every decision AT its threshold (no rounding band)."""
+    from fractions import Fraction as F
+    mA = {'kind': 'DCMotor', 'J': F(1), 'Tmax': F(2), 'w0': F(16), 'i0': None, 'imax': None}
+    mB = dict(mA, i0=F(1, 4), imax=F(2))                        # dead zone |D| <= 1/8
+    def g(J, rt, teeth, arg=None):
+        return {'kind': 'SpurGear', 'J': F(J), 'teeth': teeth, 'rel': {'type': rt, 'arg': None if arg is None else F(arg)}}
+    worm = {'kind': 'WormGear', 'J': F(1), 'teeth': 1, 'helix_deg': F(6), 'alpha_deg': F(20), 'rel': {'type': 'joint', 'arg': None}}
+    def wheel(f):
+        return {'kind': 'WormWheel', 'J': F(8), 'teeth': 20, 'helix_deg': F(6), 'alpha_deg': F(20), 'rel': {'type': 'worm', 'arg': F(f)}}
+    def chains(m):
+        return [[m, g(2, 'joint', 10)], [m, g(1, 'joint', 10), g(4, 'gear', 20, F(1, 2))],
+                [m, {'kind': 'Flywheel', 'J': F(1), 'rel': {'type': 'joint', 'arg': None}}, g(3, 'joint', 12), g(2, 'gear', 36, F(3, 4)), g(1, 'gear', 18, 1)],
+                [m, worm, wheel(F(2, 5))], [m, worm, wheel(F(1, 32))]]
+    def ld(c0=0, c1=0, c2=0, c3=0, ts=1000, cs=0):
+        return {'c0': F(c0), 'c1': F(c1), 'c2': F(c2), 'c3': F(c3), 'ts': F(ts), 'cs': F(cs)}
+    loads = [ld(), ld(c0=F(1, 2)), ld(c0=100), ld(c0=-3), ld(c0=F(1, 2), c1=F(1, 8)), ld(c2=F(1, 4)), ld(c0=F(1, 4), ts=F(3, 4), cs=50)]
+    def const(start, dur, val):
+        return {'type': 'const', 'start': F(start), 'dur': F(dur), 'val': F(val)}
+    ctrls = [[], [const(0, 1, 0)], [const(F(1, 2), F(1, 2), -1)], [const(0, F(1, 2), F(1, 2)), const(F(3, 4), 1, 1)],
+             [const(0, 1, F(1, 2)), const(1, 1, F(-1, 2))],                       # both active at exactly t = 1: conflict
+             [{'type': 'custom', 'script': [None, F(-7), F(1, 4), None]}],
+             [{'type': 'reach', 'el': 1, 'target': F(6), 'brake': F(4)}], [const(0, F(3, 2), F(1, 8))], [const(0, F(3, 2), F(-1, 8))]]   # on the dead-zone boundary
+    stops = [None, {'sensor': 'tach', 'el': 0, 'op': 'gt', 'thr': F(2)}, {'sensor': 'enc', 'el': 1, 'op': 'ge', 'thr': F(1, 2)},
+             {'sensor': 'tach', 'el': 1, 'op': 'le', 'thr': F(0)}, {'sensor': 'tach', 'el': 0, 'op': 'eq', 'thr': F(0)}]
+    out = []
+    k = 0
+    for m in (mA, mB):
+        for ci, ch in enumerate(chains(m)):
+            for li, load in enumerate(loads):
+                for ki, ctrl in enumerate(ctrls):
+                    k += 1
+                    # a covering slice: every (chain, load), every (chain, ctrl), every (load, ctrl) appears; not the full product
+                    if not ((li + ki + ci) % 3 == 0 or ki == 0 and li % 2 == 0):
+                        continue
+                    dt = [F(1, 2), F(1, 4)][(li + ki) % 2]
+                    spd0 = [F(0), F(-2), F(3)][(ci + ki) % 3]
+                    stop = stops[(ci + li + ki) % len(stops)] if ki == 0 else None
+                    run = {'op': 'run', 'sid': 1, 'dt': dt, 'T': dt * 2, 'dt_unit': 'sec', 'T_unit': 'sec', 'ctrl': 0}
+                    ops = [{'op': 'set_initial', 'pos': F(0), 'spd': spd0, 'pos_unit': 'rad', 'spd_unit': 'rad/s'}, {'op': 'new_solver', 'sid': 1}, dict(run),
+                           dict(run, T=dt * 3), {'op': 'reset'}, {'op': 'set_initial', 'pos': F(0), 'spd': spd0, 'pos_unit': 'rad', 'spd_unit': 'rad/s'}, dict(run, T=dt * 4)]
+                    inst = {'elems': ch, 'load': load, 'ctrls': [ctrl], 'stops': [stop] if stop else [], 'ops': ops}
+                    if stop:
+                        for o in ops:
+                            if o['op'] == 'run':
+                                o['stop'] = 0
+                    out.append((f'{k}', inst))
+    return out
+
+
+def _exact_traces():
+    import_repo()
+    out = []
+    for name, inst in exact_instances():
+        try:
+            tr = solver_rec.execute('exact_' + name, inst, None)
+        except ValueError:
+            continue
+        tr['family'] = 'exact'
+        tr['presentation'] = 'SI'
+        tr['exact'] = True
+        out.append(tr)
+    return out
+
+
 def _crafted_traces():
     import_repo()
     out = []
@@ -140,7 +208,7 @@ def gen_traces(tier, seed):
     from concurrent.futures import ProcessPoolExecutor
     n = 260 if tier == 'quick' else 4000
     with ProcessPoolExecutor(max_workers=min(16, os.cpu_count() or 4)) as ex:
-        return list(ex.map(_one_trace, [(seed, i) for i in range(n)], chunksize=4)) + _crafted_traces()
+        return list(ex.map(_one_trace, [(seed, i) for i in range(n)], chunksize=4)) + _crafted_traces() + _exact_traces()
 
 
 def campaign(tier, seed):
